@@ -1,9 +1,248 @@
+import CoupeModel.Model.Par
 import CoupeModel.Driver.Util
 
-namespace Coupe.Driver.C06
-open Coupe.Driver
+/-!
+# Driver for C06
 
-/-- (stub; not built yet) -/
-def handle (_toks : List String) : String := "bad-op"
+* `part …` / `dual …`: the model's claim is "the same for every pool size and
+  run"; the op line carries the digest of the outcome under one thread and the
+  driver echoes `same <digest>`.  The implementation prints `differs …` when any
+  pool size or repetition deviates.
+* `parsum`, `bbox`, `rcbsplit`, `mjsplit`: the skeletons of `Model/Par.lean` are
+  evaluated along several split trees (sequential, balanced, left comb, right
+  comb, pseudo-random); they must agree among themselves (else
+  `model-trees-differ`) and with what the real rayon code computed.
+-/
+
+namespace Coupe.Driver.C06
+open Coupe.Par Coupe.Driver
+
+/-! ## The harness PRNG (`harness/src/common.rs: Rng`, xorshift64*) -/
+
+def rngStep (s : UInt64) : UInt64 × UInt64 :=
+  let x := s ^^^ (s >>> 12)
+  let x := x ^^^ (x <<< 25)
+  let x := x ^^^ (x >>> 27)
+  (x, x * 0x2545F4914F6CDD1D)
+
+def rngNew (seed : UInt64) : UInt64 :=
+  let s := (seed * 0x9E3779B97F4A7C15) ^^^ 0xD1B54A32D192ED03
+  let s := if s == 0 then 0x2545F4914F6CDD1D else s
+  (List.range 8).foldl (fun s _ => (rngStep s).1) s
+
+/-- `(0..n).map(|_| rng.range(lo, hi))` from `Rng::new(seed)`. -/
+def genInts (seed : UInt64) (n : Nat) (lo hi : Int) : List Int :=
+  let span : Nat := (hi - lo + 1).toNat
+  let (_, acc) := (List.range n).foldl (fun (st : UInt64 × Array Int) _ =>
+    let (s, v) := rngStep st.1
+    (s, st.2.push (lo + Int.ofNat (v.toNat % span)))) (rngNew seed, Array.mkEmpty n)
+  acc.toList
+
+/-! ## Split trees -/
+
+def balanced (leaf : Nat) : Nat → Nat → SplitTree
+  | 0, _ => .leaf
+  | fuel + 1, n => if n ≤ leaf then .leaf else
+      .node (n / 2) (balanced leaf fuel (n / 2)) (balanced leaf fuel (n - n / 2))
+
+/-- Left-deep: the right-most `step` items are cut off first. -/
+def combL (step : Nat) : Nat → Nat → SplitTree
+  | 0, _ => .leaf
+  | fuel + 1, n => if n ≤ step then .leaf else .node (n - step) (combL step fuel (n - step)) .leaf
+
+/-- Right-deep. -/
+def combR (step : Nat) : Nat → Nat → SplitTree
+  | 0, _ => .leaf
+  | fuel + 1, n => if n ≤ step then .leaf else .node step .leaf (combR step fuel (n - step))
+
+/-- Pseudo-random cuts (uneven, like stolen work). -/
+def randomTree (leaf : Nat) : Nat → UInt64 → Nat → SplitTree
+  | 0, _, _ => .leaf
+  | fuel + 1, s, n => if n ≤ leaf then .leaf else
+      let (s1, v) := rngStep s
+      let k := 1 + v.toNat % (n - 1)
+      let (s2, _) := rngStep (s1 ^^^ 0x9E3779B97F4A7C15)
+      .node k (randomTree leaf fuel s1 k) (randomTree leaf fuel s2 (n - k))
+
+/-- The trees an op is evaluated on.  `small`: leaves of at most this many items
+for large inputs (bounds the cost of list indexing in the model). -/
+def trees (n : Nat) (seed : UInt64) (withSeq : Bool) (small : Nat) : List SplitTree :=
+  let step := max 1 (n / 40)
+  (if withSeq then [SplitTree.leaf] else []) ++
+  [balanced (max 1 (min small (n / 7 + 1))) 64 n,
+   combL (max 1 (min small step)) 4000 n,
+   combR (max 1 (min small step)) 4000 n,
+   randomTree (max 1 (min small 3)) 40 (rngNew (seed + 17)) n,
+   -- degenerate cuts: an empty half and a cut beyond the end
+   .node 0 .leaf (.node (n + 5) (balanced (max 1 (min small 16)) 64 n) .leaf)]
+
+def allEq {α} [BEq α] : List α → Bool
+  | [] => true
+  | x :: xs => xs.all (· == x)
+
+def parseData : List String → Option (UInt64 × List Int)
+  | ["gen", seed, n, lo, hi] => do
+    let seed ← parseNat? seed
+    let n ← parseNat? n
+    let lo ← parseInt? lo
+    let hi ← parseInt? hi
+    if n > 1000000 ∨ lo > hi then none else
+    some (UInt64.ofNat seed, genInts (UInt64.ofNat seed) n lo hi)
+  | "lit" :: n :: rest => do
+    let n ← parseNat? n
+    let (xs, rest) ← takeParsed parseInt? n rest
+    if rest.isEmpty then some (UInt64.ofNat n, xs) else none
+  | _ => none
+
+def i64Max : Int := 9223372036854775807
+def i64Min : Int := -9223372036854775808
+
+def handleParsum (rest : List String) : String :=
+  match parseData rest with
+  | none => "bad-op"
+  | some (seed, xs) =>
+    let ts := trees xs.length seed true 1000000
+    let lines := ts.map (fun t =>
+      let s := parSum t xs
+      let q := parMapSum (fun x => x * x) t xs
+      let neg := parCount (fun x => decide (x < 0)) t xs
+      let mm := parBBox i64Max i64Min t xs
+      let coll := parMapCollect (· + 1) t xs == xs.map (· + 1)
+      "sum " ++ toString s ++ " sq " ++ toString q ++ " neg " ++ toString neg ++
+        (match mm with
+         | some (a, b) => " min " ++ toString a ++ " max " ++ toString b
+         | none => " min - max -") ++
+        " collect " ++ (if coll then "ok" else "REORDERED"))
+    if allEq lines then lines.headD "bad-op" else "model-trees-differ"
+
+def column (dim k : Nat) (flat : List Int) : List Int :=
+  (flat.zipIdx.filter (fun x => x.2 % dim == k)).map (·.1)
+
+def handleBbox (rest : List String) : String :=
+  match rest with
+  | [dim, seed, n, lo, hi] =>
+    match (do
+      let dim ← parseNat? dim
+      let seed ← parseNat? seed
+      let n ← parseNat? n
+      let lo ← parseInt? lo
+      let hi ← parseInt? hi
+      if (dim == 2 ∨ dim == 3) ∧ n * dim ≤ 1000000 ∧ lo ≤ hi then some (dim, seed, n, lo, hi) else none) with
+    | none => "bad-op"
+    | some (dim, seed, n, lo, hi) =>
+      -- `if points.len() == 0 { return None }`
+      if n == 0 then "bbox none" else
+      let flat := genInts (UInt64.ofNat seed) (n * dim) lo hi
+      let big : Int := 2 ^ 1025  -- stands for f64::MAX / f64::MIN
+      let ts := trees n (UInt64.ofNat seed) true 1000000
+      let lines := ts.map (fun t =>
+        let cols := (List.range dim).map (fun k => parBBox big (-big) t (column dim k flat))
+        if cols.any (·.isNone) then "bbox none" else
+        "bbox " ++ joinInts (cols.map (fun c => (c.getD (0, 0)).1)) ++ " " ++
+          joinInts (cols.map (fun c => (c.getD (0, 0)).2)))
+      if allEq lines then lines.headD "bad-op" else "model-trees-differ"
+  | _ => "bad-op"
+
+/-- One evaluation of the cut of `par_rcb_split` at `target` (coordinates ×4)
+along the tree: `(count_left, weight_left, coordinate of the pivot)`. -/
+def cut (target : Int) (xs : List Item) (t : SplitTree) : Nat × Int × Option Int :=
+  let r := parNearest target t xs
+  (r.count, r.weight, r.idx.map (fun j => ((xs.find? (·.idx == j)).map (·.coord)).getD 0 / 4))
+
+def showPivot : Option Int → String
+  | some p => toString p
+  | none => "none"
+
+def handleRcbsplit (rest : List String) : String :=
+  match rest.mapM parseInt? with
+  | some [seed, n, lo, hi, wmax, mn, mx] =>
+    if n < 0 ∨ n > 1000000 ∨ lo > hi ∨ wmax < 1 ∨ mn > mx then "bad-op" else
+    let seedU := UInt64.ofNat seed.toNat
+    let coords := (genInts seedU n.toNat lo hi).map (· * 4)
+    let weights := genInts (seedU ^^^ 0xabcdef) n.toNat 1 wmax
+    let xs := items coords weights
+    -- `with_min_len(4096)`: leaves shorter than that do not occur, the theorem covers them anyway
+    let ts := trees xs.length seedU true 1000000
+    let t1 : Int := 2 * (mn + mx)
+    let t2 : Int := 3 * mn + mx
+    let lines := ts.map (fun t =>
+      let (c1, w1, p1) := cut t1 xs t
+      match p1 with
+      | some _ => "split " ++ toString c1 ++ " " ++ toString w1 ++ " " ++ showPivot p1 ++ " pos4 " ++ toString t1
+      | none =>
+        -- `max = split_target; prev_count_left = count_left; continue`
+        let (c2, w2, p2) := cut t2 xs t
+        match p2 with
+        | some _ => "split " ++ toString c2 ++ " " ++ toString w2 ++ " " ++ showPivot p2 ++ " pos4 " ++ toString t2
+        | none =>
+          -- `None if prev_count_left == count_left`: everything goes left, `weight_left: sum`, `split_pos: max`
+          if c1 == c2 then
+            "split " ++ toString xs.length ++ " " ++ toString weights.sum ++ " none pos4 " ++ toString t1
+          else "skip third-iteration")
+    if allEq lines then lines.headD "bad-op" else "model-trees-differ"
+  | _ => "bad-op"
+
+/-- `approx::Ulps::default().eq(a, b)` on `f64`: `|a-b| ≤ EPSILON` or same sign
+and at most 4 units in the last place apart. -/
+def ulpsEq (a b : Float) : Bool :=
+  if (a - b).abs ≤ 2.220446049250313e-16 then true
+  else if (a < 0) != (b < 0) then false
+  else
+    let x := a.toBits.toNat
+    let y := b.toBits.toNat
+    if x ≤ y then y - x ≤ 4 else x - y ≤ 4
+
+def handleMjsplit (rest : List String) : String :=
+  match rest with
+  | seed :: n :: wmax :: k :: mods =>
+    match (do
+      let seed ← parseNat? seed
+      let n ← parseNat? n
+      let wmax ← parseInt? wmax
+      let k ← parseNat? k
+      let ms ← mods.mapM parseNat?
+      if ms.length == 2 * k ∧ k ≥ 1 ∧ n ≤ 1000000 ∧ wmax ≥ 1 ∧ ms.all (· > 0) then some (seed, n, wmax, k, ms) else none) with
+    | none => "bad-op"
+    | some (seed, n, wmax, k, ms) =>
+      let ws := genInts (UInt64.ofNat seed) n (if wmax == 1 then 1 else 0) wmax
+      let rec pairs : List Nat → List Float
+        | a :: b :: r => (Float.ofNat a / Float.ofNat b) :: pairs r
+        | _ => []
+      let modifiers := (pairs ms).take (k - 1)   -- `split_last`: the last modifier is not used
+      let total := Float.ofInt ws.sum
+      -- `scan(0.0, |consumed, m| { *consumed += total_weight * m; Some(*consumed) })`
+      let (_, thrs) := modifiers.foldl (fun (st : Float × List Float) m =>
+        let c := st.1 + total * m
+        (c, st.2 ++ [c])) (0.0, [])
+      -- integer sums against an f64 threshold: `v > thr` ⇔ `v > ⌊thr⌋`;
+      -- `v < thr || ulps_eq(thr, v)` ⇔ `v ≤ ⌈thr⌉` if ⌈thr⌉ is ulps-equal to thr, else `v ≤ ⌊thr⌋`
+      let bounds := thrs.map (fun thr =>
+        let fl := thr.floor
+        let ce := thr.ceil
+        let thrB : Int := fl.toInt64.toInt
+        let thrW : Int := if ulpsEq thr ce then ce.toInt64.toInt else thrB
+        (thrB, thrW))
+      let ts := trees ws.length (UInt64.ofNat seed) (ws.length ≤ 3000) 48
+      let lines := ts.map (fun t =>
+        ("splits " ++ joinNats (mjSplits t ws bounds)).trimAscii.toString)
+      if allEq lines then lines.headD "bad-op" else "model-trees-differ"
+  | _ => "bad-op"
+
+def handle (toks : List String) : String :=
+  match toks with
+  | "part" :: algo :: stream :: rest =>
+    if rest.length == 8 ∧ ["rcb", "rcbf", "rib", "hilbert", "zcurve", "mj", "kmeans"].contains algo ∧
+        (stream == "g" ∨ stream == "x") ∧ (rest.take 7).all (fun x => (parseNat? x).isSome) ∧
+        (rest.head? == some "2" ∨ rest.head? == some "3") then
+      -- outside `ExactSums` (the frame is built from sums that round, K6): no claim
+      if rest.getLast!.startsWith "inexact-frame:" then "skip outside-ExactSums inexact OBB frame"
+      else "same " ++ rest.getLast!
+    else "bad-op"
+  | "dual" :: rest => if rest.length == 6 then "same " ++ rest.getLast! else "bad-op"
+  | "parsum" :: rest => handleParsum rest
+  | "bbox" :: rest => handleBbox rest
+  | "rcbsplit" :: rest => handleRcbsplit rest
+  | "mjsplit" :: rest => handleMjsplit rest
+  | _ => "bad-op"
 
 end Coupe.Driver.C06
